@@ -535,6 +535,7 @@ def date_lexical_section(chk, rng, quick, model_ok):
             return [v.month, v.day, tz_of(v)]
         return [v.months, int(Decimal(v.seconds) * 1000000)]
 
+    canon = []
     for (name, v11, s1), mo in zip(cases, model):
         chk.evaluations += 1
         chk.count('datelex:' + name)
@@ -568,6 +569,18 @@ def date_lexical_section(chk, rng, quick, model_ok):
             frac_long = name in ('duration', 'dayTimeDuration') and '.' in s1 and len(s1.split('.')[1].rstrip('S ')) > 6
             if fs != mo[1:] and not frac_long:
                 chk.violation('impl-vs-spec', desc, {'fields of the value': fs, 'fields of the lexical form': mo[1:]})
+        # the canonical string of the value is a fixed point that re-parses to an equal value with an equal hash
+        if want:
+            try:
+                s2 = str(v)
+                v2 = cls.fromstring(s2)
+                if str(v2) != s2 or not (v2 == v) or hash(v2) != hash(v):
+                    chk.violation('impl-vs-spec', desc, {'canonical string': s2, 're-parsed': repr(v2), 'canonical again': str(v2),
+                                                         'equal': v2 == v, 'equal hash': hash(v2) == hash(v)})
+                canon.append((name, v11, s2, fields(name, v, v11)))
+            except Exception as e:
+                chk.violation('impl-vs-spec' if isinstance(e, (ValueError, TypeError)) else 'foreign-exception', desc,
+                              {'canonical string does not re-parse': repr(e)[:200]})
         # the XPath paths
         P = XPath31Parser(xsd_version='1.1') if v11 else XPath31Parser()
         for label, expr in (('constructor', f'xs:{name}($s)'), ('cast', f'$s cast as xs:{name}'), ('castable', f'$s castable as xs:{name}'),
@@ -585,6 +598,18 @@ def date_lexical_section(chk, rng, quick, model_ok):
                 chk.violation('impl-vs-spec', desc | {'path': label}, {'succeeds': ok, 'in the lexical space': want})
         if want:
             chk.nontrivial.add(repr(('datelex', name, v11, s1)))
+
+    # the canonical strings are in the lexical space and denote the fields of the value they were printed from
+    canon = list(dict.fromkeys((n, v, s2, tuple(f)) for n, v, s2, f in canon))
+    cm = core.run_coq_cases('C10', IMPORTS, [f"run_datelex {KINDS[n][0]} {'true' if v else 'false'} {zs(s2)}" for n, v, s2, _ in canon],
+                            chunk=500, tag='datecanon', preamble='Open Scope Z_scope.') if model_ok else []
+    for (n, v, s2, f), mo in zip(canon, cm):
+        chk.evaluations += 1
+        chk.count('datelex:canonical ' + n)
+        mo = list(mo)
+        if not mo or (mo[1:] != list(f) and not (n in ('dateTime', 'time') and 24 in mo[1:6])):
+            chk.violation('impl-vs-spec', {'type': 'xs:' + n, 'xsd_version': '1.1' if v else '1.0', 'canonical string': s2},
+                          {'fields of the value': list(f), 'fields of the canonical string (model)': mo})
 
 
 def whitespace_section(chk, rng, quick, model_ok):
